@@ -211,7 +211,7 @@ def distinct_keys(rng, n, gen=styled_key, folds=None):
     return out
 
 
-LEAVES = [1, 2.5, "s", "1", "true", None, True, [], [1], ["a", "b"], {}, "2020-01-02", "a\u2028b", "x\x85", "p\x0cq", "l1\nl2"]
+LEAVES = [1, 2.5, "s", "1", "true", None, True, [], [1], ["a", "b"], {}, "2020-01-02", "2020-01-02T10:20:30", "10:20:30", "a\u2028b", "x\x85", "p\x0cq", "l1\nl2"]
 
 
 def random_graph_input(rng, depth=0, folds=None, parent_key=None):
@@ -273,14 +273,28 @@ def random_kw(rng, fw):
     return kw
 
 
+ROOT_NAMES = ["Root", "Root", "Root", "Config", "List", "Item", "class", "1st", "Été", "my-root", "Field", "json"]
+
+
+def shared_nested_input(rng):
+    """one root; two nested objects each holding an object of the same shape: that model is shared by two nested models of a
+    single root (nested layout: placed in the root with an absolute path reference)"""
+    ka, kb, kx, ky = distinct_keys(rng, 4)
+    inner = {"k": 1, "j": rng.choice(["p", 2, None])}
+    return {ka: {"x1": 1, kx: dict(inner)}, kb: {"y1": "s", ky: dict(inner)}, "z9": rng.choice(LEAVES[:5])}
+
+
 def module_cases_random(chk, n):
     rng = chk.rng
     cases = []
+    # the listed finding K-C01-datetime-without-date, exercised on every run
+    cases.append(dict(roots=[("Root", [{"d": "2021-03-05"}, {"d": "2021-03-05T10:00:00"}])], envspec={"datetime": True, "disabled": ["date"]},
+                      policy=DR.POLICIES[1], fw="pydantic", layout="flat", kw={}))
     for _ in range(n):
-        base = random_graph_input(rng)
+        base = shared_nested_input(rng) if rng.random() < 0.15 else random_graph_input(rng)
         samples = [base] + [perturb(rng, base) for _ in range(rng.choice([0, 1, 2]))]
         fw = rng.choice(FRAMEWORKS)
-        cases.append(dict(roots=[("Root", samples)], envspec=rng.choice([{}, {}, {"datetime": True}]),
+        cases.append(dict(roots=[(rng.choice(ROOT_NAMES), samples)], envspec=rng.choice([{}, {}, {"datetime": True}]),
                           policy=rng.choice(DR.POLICIES[:3]), fw=fw, layout=rng.choice(["flat", "nested"]),
                           kw=random_kw(rng, fw)))
     return cases
@@ -528,3 +542,29 @@ def label_traces(chk, maxlen):
     traces = [{"id": "lab%d" % i, "events": evs[i:i + 100]} for i in range(0, len(evs), 100)]
     inputs = {t["id"]: {"first_key": "".join(t["events"][0]["key"])} for t in traces}
     return traces, inputs
+
+
+def mixed_pseudo_cases(chk, n):
+    """a field that sees strings of two different pseudo-types (or a pseudo-typed and a plain one), across samples or in one
+    list: whatever they resolve to, the emitted model must still accept every sample (C01 at the emitted level)"""
+    rng = chk.rng
+    kinds = list(PSEUDO_LEAVES) + ["plain"]
+    pairs = [(a, b) for a in kinds for b in kinds if a < b]
+    cases = []
+    for i in range(n):
+        a, b = pairs[i % len(pairs)]
+        va = rng.choice(PSEUDO_LEAVES.get(a) or ["foo", "bar"])
+        vb = rng.choice(PSEUDO_LEAVES.get(b) or ["foo", "bar"])
+        shape = rng.choice(["across", "list", "optional"])
+        if shape == "across":
+            samples = [{"f": va, "g": 1}, {"f": vb, "g": 2}]
+        elif shape == "list":
+            samples = [{"f": [va, vb], "g": 1}, {"f": [vb], "g": 2}]
+        else:
+            samples = [{"f": va, "g": 1}, {"g": 2}, {"f": vb, "g": 3}]
+        if rng.random() < 0.5:
+            samples.reverse()
+        fw = rng.choice(["pydantic", "pydantic", "sqlmodel", "attrs", "dataclasses", "base"])
+        cases.append(dict(roots=[("Root", samples)], envspec={"datetime": True}, policy=DR.POLICIES[1], fw=fw,
+                          layout="flat", kw={}))
+    return cases
